@@ -409,6 +409,18 @@ func propCases(prop string, g *Gen, n int) []*Case {
 		for _, r := range colonOnlyShapes() {
 			add(&Case{R: r, Obs: obs, Oracles: []string{"C01"}})
 		}
+		for _, r := range deepChains(g) {
+			add(&Case{R: r, Obs: obs, Oracles: []string{"C01"}})
+		}
+		// status errors with application-defined codes (outside the standard range), bare and below wrappers / in joins
+		for _, op := range []string{"grpcstatus", "gogostatus"} {
+			for _, code := range []int64{17, 42, 1000} {
+				st := &R{Op: op, I: []int64{code}, S: []string{"quota exceeded"}}
+				add(&Case{R: st, Obs: obs, Oracles: []string{"C01"}})
+				add(&Case{R: &R{Op: "wrap", Kids: []*R{cloneR(st)}, S: []string{"ctx"}}, Obs: obs, Oracles: []string{"C01"}})
+				add(&Case{R: &R{Op: "join", Kids: []*R{cloneR(st), {Op: "new", S: []string{"other"}}}}, Obs: obs, Oracles: []string{"C01"}})
+			}
+		}
 		for i := 0; i < n; i++ {
 			add(&Case{R: g.Tree(1 + g.r.intn(6)), Obs: obs, Oracles: []string{"C01"}})
 		}
@@ -827,6 +839,14 @@ func propCases(prop string, g *Gen, n int) []*Case {
 		for _, r := range enumPairs(g) {
 			add(&Case{R: r, Obs: obs, Oracles: []string{"C11"}})
 		}
+		for _, r := range deepChains(g) {
+			add(&Case{R: r, Obs: obs, Oracles: []string{"C11"}})
+		}
+		// the same telemetry key listed twice in one layer: every layer reports what it was given
+		for _, ks := range [][]string{{"k", "k"}, {"a.b", "c", "a.b"}, {"", ""}} {
+			add(&Case{R: &R{Op: "telemetry", Kids: []*R{{Op: "new", S: []string{"base"}}}, Strs: ks}, Obs: obs, Oracles: []string{"C11"}})
+			add(&Case{R: &R{Op: "wrap", S: []string{"ctx"}, Kids: []*R{{Op: "telemetry", Kids: []*R{{Op: "new", S: []string{"base"}}}, Strs: ks}}}, Obs: obs, Oracles: []string{"C11"}})
+		}
 		// annotation strings that are not valid UTF-8: still identical after any number of hops
 		for _, bad := range []string{"caf\xe9", "trunc\xe2\x82", "\xff\xfe key"} {
 			base := func() *R { return &R{Op: "new", S: []string{"base"}} }
@@ -1021,6 +1041,17 @@ func propCases(prop string, g *Gen, n int) []*Case {
 				}
 			}
 		}
+		for _, r := range deepChains(g) {
+			o := append([]Obs{}, obs...)
+			o = append(o, Obs{Name: "hop", Procs: knowing1, Sub: obs})
+			add(&Case{R: r, Obs: o, Oracles: []string{"C19"}})
+		}
+		// URLs and details with percent signs (a percent-encoded query): the referral hint quotes them verbatim
+		for _, url := range []string{"https://tracker.example/issues?q=is%3Aopen+label%3Abug", "https://x/100%", "%s%d%v", "https://x/%!"} {
+			leaf := &R{Op: "new", S: []string{"base"}}
+			add(&Case{R: &R{Op: "issuelink", Kids: []*R{leaf}, S: []string{url, "detail 50% done"}}, Obs: obs, Oracles: []string{"C19"}})
+			add(&Case{R: &R{Op: "hint", S: []string{"h"}, Kids: []*R{{Op: "unimpl", S: []string{url, "detail %d", "not done"}}}}, Obs: obs, Oracles: []string{"C19"}})
+		}
 		// a multi-cause node ends the direct chain, also when only one of its members is non-nil
 		// (errors.Join(err, f.Close()) with a nil close error), locally and after transfer
 		for i := 0; i < 24; i++ {
@@ -1194,4 +1225,31 @@ func colonOnlyShapes() []*R {
 	a := mk(&R{Op: "stdnew", S: []string{"boom"}})
 	b := mk(&R{Op: "new", S: []string{"disk full"}})
 	return []*R{a, {Op: "wrap", S: []string{"ctx"}, Kids: []*R{cloneR(a)}}, b, {Op: "hint", S: []string{"h"}, Kids: []*R{cloneR(b)}}}
+}
+
+// deepChains: single-cause chains far deeper than anything the random streams hold (a limit on the number of
+// layers a decoder, an accessor or a stack converter looks at shows only here).  depth counts constructor
+// applications; Wrap adds two layers each.
+func deepChains(g *Gen) []*R {
+	var out []*R
+	for _, depth := range []int{24, 40, 70} {
+		r := &R{Op: "new", S: []string{"origin of a deep chain"}}
+		r = &R{Op: "tags", Kids: []*R{r}, Tags: []TagKV{{K: "innermost", Kind: "int", V: "1"}}}
+		for i := 0; i < depth; i++ {
+			switch i % 5 {
+			case 0:
+				r = &R{Op: "wrap", Kids: []*R{r}, S: []string{fmt.Sprintf("level %d", i)}}
+			case 1:
+				r = &R{Op: "hint", Kids: []*R{r}, S: []string{fmt.Sprintf("hint %d", i)}}
+			case 2:
+				r = &R{Op: "withmessage", Kids: []*R{r}, S: []string{fmt.Sprintf("msg %d", i)}}
+			case 3:
+				r = &R{Op: "tags", Kids: []*R{r}, Tags: []TagKV{{K: fmt.Sprintf("t%d", i), Kind: "int", V: fmt.Sprint(i)}}}
+			default:
+				r = &R{Op: "telemetry", Kids: []*R{r}, Strs: []string{fmt.Sprintf("key.%d", i)}}
+			}
+		}
+		out = append(out, r)
+	}
+	return out
 }
